@@ -7,6 +7,7 @@ mod specio;
 mod extract;
 mod c19;
 mod c20;
+mod detprops;
 mod totality;
 mod cratecheck;
 mod compileprops;
@@ -56,6 +57,9 @@ fn main() {
         extract::smoke(&args[2..]);
         return;
     }
+    if prop == "child-cli" {
+        std::process::exit(pipeline::child_cli(&args[2..]));
+    }
     if prop == "child-gen" {
         std::process::exit(pipeline::child_gen(&args[2..]));
     }
@@ -71,6 +75,7 @@ fn main() {
         "C18" | "C04" | "C03" | "C02" | "C16" => emitprops::run(&prop, &tier, seed, &out),
         // the extraction stage of a property whose other stages are on the emitted crate: `lnv X04 ..`
         p if p.starts_with('X') => hirprops::run(&format!("C{}", &p[1..]), &tier, seed, &out),
+        "C09" => detprops::run(&tier, seed, &out),
         "K02" => compileprops::run_k02(&tier, seed, &out),
         "K16" => compileprops::run_k16(&tier, seed, &out),
         "K04" => compileprops::run_k04(&tier, seed, &out),
